@@ -50,6 +50,25 @@ def _one(args: Tuple[str, str, str, str, str, Optional[str]]) -> Dict[str, Any]:
         if err is not None and err.startswith("analysis-error"):
             return {"id": vid, "kind": "break", "status": "analysis-error", "expect": prop + "-R*", "err": err, "s": dt}
         return {"id": vid, "kind": "break", "status": "caught" if fired else "MISSED", "expect": prop + "-R*", "fired": fired, "detail": [], "err": err, "s": dt}
+    if rel == "<benign-change>":
+        ov = _SEEDED.get(vid)
+        t0 = time.time()
+        if not ov:
+            return {"id": vid, "status": "stale", "why": "stored patch no longer applies"}
+        try:
+            m = Model(root=base.root, overrides=ov, reuse=base)
+            rep = Report(prop, "thorough", quiet=True)
+            importlib.import_module(f"sa.rules.{prop.lower()}").run(m, rep)
+            rep.finish()
+            fired = sorted({i.rule for i in rep.violations})
+            detail = [f"{i.rule} {i.site} {i.construct[:80]}" for i in rep.violations][:4]
+            err = None
+        except (AnchorMissing, AnalysisError) as e:
+            fired, detail, err = [], [], f"analysis-error: {e}"
+        except Exception as e:
+            fired, detail, err = [], [], f"crash: {type(e).__name__}: {e}"
+        ok = not fired and err is None
+        return {"id": vid, "kind": "twin", "status": "silent" if ok else "FALSE-ALARM", "fired": fired, "detail": detail, "err": err, "s": round(time.time() - t0, 2)}
     if rel == "<whole-repo-twin>":
         from .twins import run_twin
 
@@ -107,8 +126,18 @@ def run_for(prop: str, base: Model) -> Dict[str, Any]:
         vid = "seeded:" + name
         _SEEDED[vid] = ov or {}
         vs.append((prop, vid, "<seeded-change>", name, "", prop + "-R*"))
+    # stored behaviour-preserving refactorings (benign/): every rule of the property must stay silent on them
+    from .seeded import benign_overrides
+
+    for name, ov in benign_overrides(prop, base.read_text):
+        vid = "benign:" + name
+        _SEEDED[vid] = ov or {}
+        vs.append((prop, vid, "<benign-change>", name, "", None))
     _BASE = base
     t0 = time.time()
+    from .equiv_cases import run as equiv_selftest
+
+    eq = equiv_selftest()
     results: List[Dict[str, Any]] = []
     if vs:
         try:
@@ -127,10 +156,14 @@ def run_for(prop: str, base: Model) -> Dict[str, Any]:
         "twins_silent": sum(1 for r in results if r["status"] == "silent"),
         "false_alarms": [r["id"] for r in results if r["status"] == "FALSE-ALARM"],
         "stale": [r["id"] for r in results if r["status"] == "stale"],
+        "equivalence_layer_selftest": eq,
         "wall_s": round(time.time() - t0, 2),
         "results": results,
     }
     print(f"   selftest {prop}: {summary['variants']} variants, caught={summary['caught']} (+{summary['analysis_error']} analysis-error), missed={summary['missed']}, twins silent={summary['twins_silent']}, false alarms={summary['false_alarms']}, stale={summary['stale']}, {summary['wall_s']}s")
+    if eq["failed"]:
+        summary["false_alarms"] = summary["false_alarms"] + ["equiv:" + x for x in eq["failed"]]
+        print(f"   SELFTEST-EQUIV {eq['failed']}")
     for r in results:
         if r["status"] in ("MISSED", "FALSE-ALARM"):
             print(f"   SELFTEST-{r['status']} {r['id']}: expected {r.get('expect')} fired {r.get('fired')} {r.get('err') or ''} {r.get('detail')}")
